@@ -81,24 +81,19 @@ theorem C07_failed_keeps_old (busy addrs : List Nat) (acts : List Act) :
 example : listenFails (run (M.init [3] [1]) [.begin 2 ⟨[1, 3], false⟩, .setup, .listen]) := by
   refine ⟨3, [], ?_, ?_, ?_, ?_⟩ <;> decide
 
-/-- **Model and judge agree on the sequential hand-over stream (partial: plain reloads).**  For every starting
-configuration that is valid for the environment and EVERY sequence of plain reloads (`R:` operations: any configurations,
-valid or failing at setup or at any listen, addresses kept, added, dropped or reordered), the observations of the protocol
-machine run under the sequential schedules of `c07.handover` satisfy every law of the judge `ReloadSpec.stepLaw`: valid ⇒
-loaded, the new generation answers, one descriptor, the SAME socket for every kept address; invalid ⇒ nothing changed.
-Missing (hence `_partial`): operations with a request in flight (`T:`); for those the link between model and judge is only
-tested by the stream. -/
-theorem C07_model_verdict_ok_partial (busy : List Nat) (c0 : Cfg) (hops : List HOp)
-    (hfree : ∀ a ∈ c0.addrs, busy.contains a = false) (hplain : ∀ op ∈ hops, ∃ c, op = .reload c) :
+/-- **Model and judge agree on the sequential hand-over stream.**  For every starting configuration that is valid for the
+environment and EVERY sequence of operations of `c07.handover` — plain reloads and reloads with a request in flight, any
+configurations (valid, failing at setup or at any listen; addresses kept, added, dropped or reordered) — the observations of
+the protocol machine run under the sequential schedules satisfy every law of the judge `ReloadSpec.stepLaw`: valid ⇒ loaded,
+the new generation answers, one descriptor, the SAME socket for every kept address; invalid ⇒ nothing changed; the request in
+flight is answered completely by the old generation, the connection made while the old instance drains by the new one. -/
+theorem C07_model_verdict_ok (busy : List Nat) (c0 : Cfg) (hops : List HOp)
+    (hfree : ∀ a ∈ c0.addrs, busy.contains a = false) :
     verdict busy c0 hops (handoverRun busy c0 hops) = "ok" := by
   obtain ⟨h1, h2⟩ := start_ok (busy := busy) (c0 := c0) hfree
-  simp only [verdict, handoverRun, h1, runOps_check hops _ _ _ _ h2 hplain]
+  simp only [verdict, handoverRun, h1, runOps_check hops _ _ _ _ h2]
 
-example : ∀ op ∈ [HOp.reload ⟨[1, 2], false⟩, .reload ⟨[1, 3], false⟩, .reload ⟨[2], true⟩, .reload ⟨[2, 1], false⟩],
-    ∃ c, op = .reload c := by
-  intro op h
-  simp only [List.mem_cons, List.not_mem_nil, or_false] at h
-  rcases h with rfl | rfl | rfl | rfl <;> exact ⟨_, rfl⟩
+example : ∀ a ∈ (⟨[1, 2], false⟩ : Cfg).addrs, ([3] : List Nat).contains a = false := by decide
 
 /-! ### the judges are not vacuous (tests of the executable predicates on hand-made observations) -/
 
